@@ -22,6 +22,8 @@ CORRESPONDENCE = "Frame.decode/unpack, CanMatrix.decode == CanVerif.Frame.decode
 def gen_frame(rng, kind="plain"):
     n = rng.choice(F.ALL_LENGTHS if rng.random() < 0.7 else F.FD_LENGTHS)
     sigs = [F.rand_sig(rng, "s%d" % k, n) for k in range(rng.randint(1, 6))]
+    if kind == "plain" and rng.random() < 0.05:
+        sigs = []                # a frame may be declared without signals: its length is its length all the same
     fd = {"size": n, "sigs": sigs}
     if kind == "mux":
         w = rng.randint(1, min(8, 8 * n))
@@ -67,7 +69,13 @@ def gen(rng, tier, shard, nshards):
             ln = rng.choice([rng.randint(0, 2 * fd["size"]), fd["size"] - 1, fd["size"] + 1, fd["size"], 0, 2 * fd["size"], nxt])
             data = F.rand_payload(rng, ln) if ln else []
             if fd.get("ctfull"):
-                data = ([0, 0, 10, 2, rng.randrange(256), rng.randrange(256), 0, 0, 11, 2, rng.randrange(256), rng.randrange(256)] + [0] * 64)[:ln]
+                # a sequence of contained PDUs: the two described ones and unknown ones of 1..3 bytes, then zeros
+                seq = []
+                for _k in range(rng.randint(1, 3)):
+                    pid = rng.choice([10, 11, 99])
+                    dl = 2 if pid != 99 else rng.randint(1, 3)
+                    seq += [0, 0, pid, dl] + [rng.randrange(256) for _ in range(dl)]
+                data = (seq + [0] * 64)[:ln]
             api = rng.choice(["unpack", "unpack", "unpack", "decode", "mdecode"])
             if kind == "container" and api == "mdecode":
                 api = "decode"
